@@ -148,6 +148,47 @@ def delete_table_metadata_sql(catalog: str, schema: str, table: str) -> str:
     """
 
 
+def rename_table_metadata_sql(catalog: str, schema: str, table: str, new_table: str) -> str:
+    # copy the rows to the new name and blank the old ones (rather than update the key or delete, see above)
+    tables_ext = f"{catalog}.information_schema._fs_tables_ext"
+    columns_ext = f"{catalog}.information_schema._fs_columns_ext"
+    where = f"ext_table_catalog = '{catalog}' AND ext_table_schema = '{schema}' AND ext_table_name"
+    return f"""
+        {delete_table_metadata_sql(catalog, schema, new_table)}
+        INSERT INTO {tables_ext}
+        SELECT ext_table_catalog, ext_table_schema, '{new_table}', comment FROM {tables_ext} WHERE {where} = '{table}'
+        ON CONFLICT (ext_table_catalog, ext_table_schema, ext_table_name) DO UPDATE SET comment = excluded.comment;
+        INSERT INTO {columns_ext}
+        SELECT ext_table_catalog, ext_table_schema, '{new_table}', ext_column_name,
+            ext_character_maximum_length, ext_character_octet_length
+        FROM {columns_ext} WHERE {where} = '{table}'
+        ON CONFLICT (ext_table_catalog, ext_table_schema, ext_table_name, ext_column_name)
+        DO UPDATE SET ext_character_maximum_length = excluded.ext_character_maximum_length,
+            ext_character_octet_length = excluded.ext_character_octet_length;
+        {delete_table_metadata_sql(catalog, schema, table)}
+    """
+
+
+def rename_column_metadata_sql(catalog: str, schema: str, table: str, column: str, new_column: str) -> str:
+    columns_ext = f"{catalog}.information_schema._fs_columns_ext"
+    where = (
+        f"ext_table_catalog = '{catalog}' AND ext_table_schema = '{schema}' AND ext_table_name = '{table}' "
+        "AND ext_column_name"
+    )
+    blank = "SET ext_character_maximum_length = NULL, ext_character_octet_length = NULL"
+    return f"""
+        UPDATE {columns_ext} {blank} WHERE {where} = '{new_column}';
+        INSERT INTO {columns_ext}
+        SELECT ext_table_catalog, ext_table_schema, ext_table_name, '{new_column}',
+            ext_character_maximum_length, ext_character_octet_length
+        FROM {columns_ext} WHERE {where} = '{column}'
+        ON CONFLICT (ext_table_catalog, ext_table_schema, ext_table_name, ext_column_name)
+        DO UPDATE SET ext_character_maximum_length = excluded.ext_character_maximum_length,
+            ext_character_octet_length = excluded.ext_character_octet_length;
+        UPDATE {columns_ext} {blank} WHERE {where} = '{column}';
+    """
+
+
 def insert_table_comment_sql(catalog: str, schema: str, table: str, comment: str) -> str:
     return f"""
         INSERT INTO {catalog}.information_schema._fs_tables_ext
